@@ -96,7 +96,8 @@ let () =
            | ["W"; "r"; idev; l] -> Some (XApi (ASetRxList (z_of_string idev, plist (if l = "-" then "" else l))))
            | ["O"; "0"; b] -> Some (XApi (ASetOnlyKnown (b = "1")))
            | ["O"; _; _] -> Some (XBase (RBase (OTick (zi 0))))       (* forwarding options: no effect without a forward stream *)
-           | ["K"; _; m; s; v; ser] -> Some (XApi (ASetProductInformation (unhex ser, zi 666, unhex m, unhex s, unhex v, zi 1, zi 2101, zi 0)))
+           | ["K"; _; m; s; v; ser] -> let u x = if x = "~" then [] else unhex x in     (* ~ = null pointer: the field is left empty *)
+             Some (XApi (ASetProductInformation (u ser, zi 666, u m, u s, u v, zi 1, zi 2101, zi 0)))
            | ["L"; which; l] -> Some (XApi (ASetPgnList (z_of_string which, plist (if l = "-" then "" else l))))
            | _ -> (match base_op s with Some o -> Some (XBase o) | None -> None)) opstrs in
        let nonempty = List.map (fun s -> split s <> []) opstrs in
